@@ -1,5 +1,5 @@
 (* C09 — a stream cut at any byte yields a prefix of the uncut stream's output. *)
-From PyUbx Require Import Base Bytes Reader Reader_generic Reader_file Reader_props.
+From PyUbx Require Import Base Bytes Reader Socket Reader_generic Reader_file Reader_props Socket_lemmas.
 Open Scope N_scope.
 
 Theorem C09_prefix : forall (P : Type) (parse : N -> bytes -> result P) (nmea_hdr : N -> bool) c s k,
@@ -32,3 +32,16 @@ Theorem C09_clean : forall (P : Type) (parse : N -> bytes -> result P) (nmea_hdr
   prefix (deliver_all parse c cs1) (items (file_read_all parse nmea_hdr c (firstn k (flatten (cs1 ++ cs2))))).
 Proof. exact @c09_clean. Qed.
 Print Assumptions C09_clean.
+
+(* the cut stream arriving through a SOCKET (any segmentation into recv() results, any bufsize, then close / timeout /
+   OSError): still a prefix of what the uncut stream yields from a file, and the iteration ends *)
+Theorem C09_prefix_socket : forall (P : Type) (parse : N -> bytes -> result P) (nmea_hdr : N -> bool) c s k l,
+  parse_protocol_only parse -> quitonerror c <> 2 -> tail_fail l -> chunks l = firstn k s ->
+  prefix (items (sock_run parse nmea_hdr c l)) (items (file_read_all parse nmea_hdr c s)) /\
+  out_of_fuel (sock_run parse nmea_hdr c l) = false.
+Proof.
+  intros P parse nmea_hdr c s k l Hp Hq Ht Hc. split.
+  - rewrite (c10_refines_file_gen parse nmea_hdr c l Ht), Hc. exact (@c09_prefix P parse nmea_hdr c s k Hp Hq).
+  - exact (c08_sock_terminates parse nmea_hdr c l Ht).
+Qed.
+Print Assumptions C09_prefix_socket.
